@@ -760,8 +760,9 @@ Record volargs := {
 
 (* Image.get_volume (not tiled) of a map with M channels: every plane position occurs M times in
    the frame table; order of the steps as in the code: rows/columns standardised, frames must be
-   identified by position, slices standardised (a start below -n passes the standardiser and the
-   placement of the frames into the output array then fails with an IndexError), the requested
+   identified by position, slices standardised (a start below -n passes the standardiser: below -2n
+   the geometry refuses the standardised start < -n with a ValueError, otherwise the placement of
+   the frames into the output array fails with an IndexError), the requested
    slices are read and transformed (tr), the array is cropped (an empty crop is refused when the
    geometry is indexed).  Result: (rows, columns, [(position of the uncropped slice, values)]) *)
 Definition pm_volume_sub {A} (d : A) (tr : list Z -> res (list A)) (R C M : Z)
@@ -771,7 +772,7 @@ Definition pm_volume_sub {A} (d : A) (tr : list Z -> res (list A)) (R C M : Z)
   bind (std_axis (v_cs a) (v_ce a) C (v_ai a)) (fun cc =>
   bind (pm_volume (flat_map (fun p => repeat p (Z.to_nat M)) pos) frames) (fun sl =>
   bind (std_slice (v_ss a) (v_se a) (Z.of_nat (length sl)) (v_ai a)) (fun se =>
-  if fst se <? 0 then Err "IndexError"
+  if fst se <? 0 then (if fst se <? - Z.of_nat (length sl) then Err "ValueError" else Err "IndexError")
   else
     bind (res_all (map (fun pf => bind (tr (snd pf)) (fun v => Ok (fst pf, v)))
                        (firstn (Z.to_nat (snd se - fst se)) (skipn (Z.to_nat (fst se)) sl))))
